@@ -201,7 +201,10 @@ def run(ctx):
     import file_corr
     import export_thms
     ctx.gen_tables.update(ob_outbytes.regen())   # snaplen literal of run() → lean/TLX/Gen/WriterConsts.lean, BEFORE the proofs
-    ctx.prove(["TLX.Props.C06"] + ob_outbytes.MODULES + export_thms.MODULES)
+    import translate                 # decision-logic functions re-translated from the source and proved equal to the model
+    _tm, _tt = translate.wire(ctx, "C06")
+    ctx.prove(["TLX.Props.C06"] + ob_outbytes.MODULES + export_thms.MODULES + _tm)
+    ctx.require_theorems(_tt)
     ctx.require_theorems(c06_model.THEOREMS + ob_outbytes.THEOREMS + export_thms.THEOREMS)
     c06_model.run_model(ctx)
     ob_outbytes.correspond(ctx)       # ties TLX.OutBytes (scapy serialisation, dpkt pcapng writer) to the real libraries
